@@ -81,6 +81,46 @@ async fn one_run(run: u64, seed: u64, tasks: u64, calls: u64) {
     let _ = clock.get_time().await;
 }
 
+/// More callers than the clock's channel holds (1000). The getters are polled once each by this task without
+/// yielding, so their requests sit in the channel (the actor has not run yet) and the channel is full when the
+/// registration is made. The registration must still take effect before anything requested after it returned.
+async fn flood_run(getters: u64) {
+    use std::future::Future;
+    use std::pin::Pin;
+    use std::task::Poll;
+    let base: u64 = 5000;
+    verif::set_node_wall(NODE, Some(Duration::from_millis(base * 4)));
+    let clock = Clock::new(NODE);
+    let mut futs: Vec<Pin<Box<dyn Future<Output = ()>>>> = vec![];
+    for t in 1..=getters {
+        let clock = clock.clone();
+        futs.push(Box::pin(async move {
+            verif::emit(|seq| json!({"ev": "start", "seq": seq, "task": t, "id": t, "call": "get", "ts": []}).to_string());
+            let out = clock.get_time().await;
+            verif::emit(|seq| json!({"ev": "end", "seq": seq, "task": t, "id": t, "call": "get", "out": ts_json(out), "ts": []}).to_string());
+        }));
+    }
+    std::future::poll_fn(|cx| {
+        for f in futs.iter_mut() {
+            let _ = f.as_mut().poll(cx);
+        }
+        Poll::Ready(())
+    })
+    .await;
+    let remote = HLCTimestamp::new(Duration::from_millis((base + 1000) * 4), 7, 2);
+    let id = getters + 1;
+    verif::emit(|seq| json!({"ev": "start", "seq": seq, "task": 0, "id": id, "call": "reg", "ts": ts_json(remote)}).to_string());
+    clock.register_ts(remote).await;
+    verif::emit(|seq| json!({"ev": "end", "seq": seq, "task": 0, "id": id, "call": "reg", "out": [], "ts": ts_json(remote)}).to_string());
+    let id = getters + 2;
+    verif::emit(|seq| json!({"ev": "start", "seq": seq, "task": 0, "id": id, "call": "get", "ts": []}).to_string());
+    let out = clock.get_time().await;
+    verif::emit(|seq| json!({"ev": "end", "seq": seq, "task": 0, "id": id, "call": "get", "out": ts_json(out), "ts": []}).to_string());
+    for f in futs {
+        f.await;
+    }
+}
+
 pub fn record() {
     let seed: u64 = arg_or("--seed", "1").parse().unwrap();
     let runs: u64 = arg_or("--runs", "40").parse().unwrap();
@@ -101,6 +141,18 @@ pub fn record() {
         let evs = verif::take_events();
         rt.shutdown_background();
         writeln!(f, "{}", json!({"ev": "reset", "run": run, "node": NODE, "tasks": tasks, "runtime": if multi { "multi-thread" } else { "current-thread" }})).unwrap();
+        for e in evs {
+            writeln!(f, "{}", e).unwrap();
+            events += 1;
+        }
+    }
+    for getters in [1100u64, 1500] {
+        let rt = tokio::runtime::Builder::new_current_thread().enable_all().build().unwrap();
+        verif::start_recording();
+        rt.block_on(flood_run(getters));
+        let evs = verif::take_events();
+        rt.shutdown_background();
+        writeln!(f, "{}", json!({"ev": "reset", "run": format!("flood-{getters}"), "node": NODE, "tasks": getters + 1, "runtime": "current-thread"})).unwrap();
         for e in evs {
             writeln!(f, "{}", e).unwrap();
             events += 1;
